@@ -43,6 +43,7 @@ pub fn model_space(tier: Tier) -> Vec<Model> {
             v.extend(gen::m4(0));
             v.extend(gen::m5(0));
             v.extend(gen::m6(0));
+            v.extend(gen::m7(0));
         }
         Tier::Thorough => {
             v.extend(gen::m1(1));
@@ -51,6 +52,7 @@ pub fn model_space(tier: Tier) -> Vec<Model> {
             v.extend(gen::m4(1));
             v.extend(gen::m5(1));
             v.extend(gen::m6(1));
+            v.extend(gen::m7(1));
         }
     }
     v
